@@ -350,6 +350,9 @@ func c13Case(env *Env, tape *sim.Tape) *CaseOut {
 	if os.Getenv("VERIF_C13_MODE") == "extras" {
 		return c13Extras(env, tape)
 	}
+	if tape.Draw(16) == 15 {
+		return c13Default(env, tape)
+	}
 	out := &CaseOut{}
 	opts := drawOptions(tape)
 	before := opts.Clone()
